@@ -1592,6 +1592,22 @@ func (m *Monitor) checkC10(g *Gen, w []string, out string, b, a *snapshot) {
 				seqs = append(seqs, s.Sequence)
 			}
 		}
+		// an outgoing tx that is still stored keeps the sequence number it was created with (the number is part of
+		// what validators signed), whatever happened in between: blocks, exports and imports, restarts
+		for _, x := range b.batches[c] {
+			for _, y := range a.batches[c] {
+				if x.extToken == y.extToken && x.nonce == y.nonce && x.seq != y.seq {
+					m.report(g, "sequence-restamped", fmt.Sprintf("chain %s batch %s/%d sequence %d -> %d (op %s)", c, x.extToken, x.nonce, x.seq, y.seq, w[0]))
+				}
+			}
+		}
+		for _, x := range b.sets[c] {
+			for _, y := range a.sets[c] {
+				if x.Nonce == y.Nonce && x.Sequence != y.Sequence {
+					m.report(g, "sequence-restamped", fmt.Sprintf("chain %s signer set %d sequence %d -> %d (op %s)", c, x.Nonce, x.Sequence, y.Sequence, w[0]))
+				}
+			}
+		}
 		sort.Slice(seqs, func(i, j int) bool { return seqs[i] < seqs[j] })
 		if a.outSeq[c] != b.outSeq[c]+uint64(len(seqs)) {
 			m.report(g, "sequence-gap", fmt.Sprintf("chain %s sequence %d -> %d with %d outgoing txs stored", c, b.outSeq[c], a.outSeq[c], len(seqs)))
